@@ -275,7 +275,10 @@ def compare(impl, model, scen_lines, fields=ALL_FIELDS, noids=False, seq=True):
     if len(ri) != len(rm):
         return f"number of runs differs: impl {len(ri)} model {len(rm)}"
     runlines = [l for l in scen_lines if l.startswith(("run ", "runfrom "))]
+    tainted = False
     for k, (a, b) in enumerate(zip(ri, rm)):
+        if k < len(runlines) and runlines[k].startswith("run "):
+            tainted = False     # a plain run starts from the checker's initial state
         ra, rb = a["hdr"].split()[2:3], b["hdr"].split()[2:3]
         if k < len(runlines) and runlines[k].startswith("runfrom") and ra and rb and ra[0].startswith("result=err") and rb[0].startswith("result=err"):
             ra = rb = ["result=err"]
@@ -288,8 +291,14 @@ def compare(impl, model, scen_lines, fields=ALL_FIELDS, noids=False, seq=True):
         if a.get("net") != b.get("net") and a["E"] and b["E"]:
             return f"run {k}: the checker's network settings at the start of the run differ:\n#   impl:  {a.get('net')}\n#   model: {b.get('net')}"
         multi = k < len(runlines) and runlines[k].startswith("runfrom")
-        if multi and k > 0 and len(ri[k - 1]["C"]) <= 1 and len(rm[k - 1]["C"]) <= 1:
+        if multi and k > 0 and len(ri[k - 1]["C"]) <= 1 and len(rm[k - 1]["C"]) <= 1 and not tainted:
             multi = False   # one start state: nothing depends on the order of start states
+        was_tainted = tainted
+        if multi:
+            # which of several paths to a collected state is kept as its trace and depth depends on the (hash) order in which
+            # equal-depth start states were visited: every later stage starts from states whose depth and trace are not
+            # determined by the property
+            tainted = True
         if multi and "result=err" in a["hdr"] and "result=err" in b["hdr"]:
             # several start states of equal depth are visited in hash order by the code: which of them fails
             # first (and what was evaluated before) is not determined by the property
@@ -299,7 +308,7 @@ def compare(impl, model, scen_lines, fields=ALL_FIELDS, noids=False, seq=True):
         if multi or not seq:
             # without a cache every path from every start state is explored, so also the trace-dependent observations
             # (depth, predicate battery) form a determined set
-            sf = ("N", "E", "A", "P", "d") if (multi and " disabled " in runlines[k] + " ") else ("N", "E", "A")
+            sf = ("N", "E", "A", "P", "d") if (multi and " disabled " in runlines[k] + " " and not was_tainted) else ("N", "E", "A")
             pa = sorted(set(project(l, [f for f in fields if f in sf], noids) for l in a["E"]))
             pb = sorted(set(project(l, [f for f in fields if f in sf], noids) for l in b["E"]))
         if pa != pb:
@@ -314,6 +323,10 @@ def compare(impl, model, scen_lines, fields=ALL_FIELDS, noids=False, seq=True):
             ta = [project(l, fields, noids) for l in a["T"]]; tb = [project(l, fields, noids) for l in b["T"]]
             if ta != tb:
                 return f"run {k}: error state/trace differs:\n#   impl:  {ta}\n#   model: {tb}"
+        # (the bound counts distinct states by what the E line shows; with duplication a re-queued copy keeps its id but moves to
+        # the back of its group of identical messages, so two states the checker rightly tells apart can look the same: skipped)
+        if multi and " disabled " not in runlines[k] + " " and any("dupl" in l for l in scen_lines):
+            continue
         if multi and " disabled " not in runlines[k] + " ":
             # with a shared visited cache the start state of a later run may have been evaluated before: how often a
             # goal/pruned state is counted then depends on the (hash) order of equal-depth start states.  What does not depend
@@ -383,7 +396,8 @@ def _blocked(impl):
 def run(v, tier, seed, prof=None, n_quick=300, n_thorough=5000, fields=ALL_FIELDS, noids=False, seq=True,
         nontrivial=lambda st: st["multi_states"], name="mc_suite", corpus=("mc",), extra=None, cfg_lines=()):
     prof = prof or DEFAULT_PROFILE
-    rng = random.Random(seed * 7919 + hash(name) % 1000)
+    import zlib
+    rng = random.Random(seed * 7919 + zlib.crc32(name.encode()) % 1000)     # (str hash() differs from process to process)
     scen = []
     for c in corpus:
         scen += corpus_scenarios(c)
